@@ -43,6 +43,14 @@ TICC_MODELS = {"quick": [("MC_TiccLoop", "MC_TiccLoop_small.cfg"), ("MC_TiccLoop
                             ("MC_TiccLoop", "MC_TiccLoop_m2.cfg"), ("MC_TiccLoop", "MC_TiccLoop_k3.cfg")]}
 
 
+def scripted_extra(pid, need=None):
+    """The spec -> code direction for the loop: label scripts from TiccLoop behaviours replayed into the real loop."""
+    def extra(rep, trs, tier):
+        from .. import drv_scripts
+        drv_scripts.validate(rep, pid, tier, **({} if need is None else {"need": need}))
+    return extra
+
+
 def corpus_property(pid, tier, level, *, models=(), need=(), rule="", nontrivial=None, select=None,
                     assumptions=(), extra=None):
     rep = common.Report(pid, tier, level)
